@@ -31,6 +31,7 @@ type Engine struct {
 	verif          string
 	fset           *token.FileSet
 	prog           *ssa.Program
+	tables         map[tableKey]*constTable
 	pkgs           []*packages.Package
 	pkgByPath      map[string]*packages.Package
 	sorts          *Sorts
@@ -175,6 +176,7 @@ func (eng *Engine) load() error {
 			p.Build()
 		}
 	}
+	eng.findConstTables()
 	eng.contracts = map[*ssa.Function]*Contract{}
 	eng.externByName = map[string]*Contract{}
 	eng.ifaceContracts = map[string]*Contract{}
@@ -419,7 +421,7 @@ type funcResult struct {
 func (eng *Engine) newTop(fn *ssa.Function, c *Contract) *fnCtx {
 	fc := &fnCtx{eng: eng, fn: fn, contract: c, defs: newDefs(),
 		kindCtr: map[string]int{}, heapInit: map[string]string{}, heapSorts: map[string]string{}, strLits: map[string]string{},
-		params: map[string]Val{}, externsUsed: map[string]bool{}, inlinedFns: map[string]bool{}, calleeUsed: map[string]bool{},
+		params: map[string]Val{}, externsUsed: map[string]bool{}, tablesUsed: map[string]bool{}, inlinedFns: map[string]bool{}, calleeUsed: map[string]bool{},
 		callOrd: map[string]int{}, storeOrd: map[*ssa.Alloc]int{}, framedBases: map[string]bool{}, boundCalls: map[int]bool{}, boundAfters: map[int]bool{}, heapElemTy: map[string]types.Type{}}
 	fc.top = fc
 	return fc
@@ -581,6 +583,9 @@ func (eng *Engine) verifyFunction(tg target) *funcResult {
 	res.Imprecise = fc.imprecise
 	res.SpecErrors = append(fc.specErrors, fc.unboundClauses()...)
 	res.Externs = sortedKeys(fc.externsUsed)
+	for _, t := range sortedKeys(fc.tablesUsed) {
+		res.Externs = append(res.Externs, "constant table "+t+" (entries read from its init literal each run; assumed not mutated through reflection/unsafe or by importers)")
+	}
 	res.Callees = sortedKeys(fc.calleeUsed)
 	res.Inlined = sortedKeys(fc.inlinedFns)
 	res.Waived = fc.waivedUsed
